@@ -36,9 +36,11 @@ const (
 	opWGWait
 	opLock
 	opSleep
+	opRWLock
+	opRWRLock
 )
 
-var opNames = [...]string{"none", "start", "yield", "resume", "send", "recv", "select", "wgwait", "lock", "sleep"}
+var opNames = [...]string{"none", "start", "yield", "resume", "send", "recv", "select", "wgwait", "lock", "sleep", "rwlock", "rwrlock"}
 
 // Config describes one simulated run.
 type Config struct {
@@ -124,6 +126,13 @@ type Result struct {
 	TeardownIncomplete int
 }
 
+// rwState mirrors a sync.RWMutex: active readers, an active writer, Lock calls that wait
+type rwState struct {
+	readers int
+	writer  bool
+	wwait   int
+}
+
 type chanState struct {
 	ord    int
 	ref    any
@@ -180,6 +189,7 @@ type sched struct {
 	chans map[unsafe.Pointer]*chanState
 	wgs   map[unsafe.Pointer]*int64
 	mus   map[unsafe.Pointer]*bool
+	rws   map[unsafe.Pointer]*rwState
 	tim   timerHeap
 	tseq  uint64
 	rng   uint64
@@ -418,9 +428,28 @@ func (s *sched) enabled(t *Task) bool {
 		case opLock:
 			h := s.mus[t.opPtr]
 			return h == nil || !*h
+		case opRWLock:
+			w := s.rwOf(t.opPtr)
+			return !w.writer && w.readers == 0
+		case opRWRLock:
+			w := s.rwOf(t.opPtr)
+			return !w.writer && w.wwait == 0
 		}
 	}
 	return false
+}
+
+//go:norace
+func (s *sched) rwOf(p unsafe.Pointer) *rwState {
+	if s.rws == nil {
+		s.rws = map[unsafe.Pointer]*rwState{}
+	}
+	w := s.rws[p]
+	if w == nil {
+		w = &rwState{}
+		s.rws[p] = w
+	}
+	return w
 }
 
 //go:norace
@@ -668,6 +697,18 @@ func (s *sched) loop() {
 			s.mix(int64(t.ID), 103)
 			s.cont(t, wakeMsg{})
 			continue
+		case rqRWUnlock:
+			s.rwOf(r.ptr).writer = false
+			s.mix(int64(t.ID), 107)
+			s.cont(t, wakeMsg{})
+			continue
+		case rqRWRUnlock:
+			if w := s.rwOf(r.ptr); w.readers > 0 {
+				w.readers--
+			}
+			s.mix(int64(t.ID), 108)
+			s.cont(t, wakeMsg{})
+			continue
 		case rqTimer:
 			cs := s.chanOf(r.ch)
 			cs.timer = true
@@ -756,6 +797,11 @@ func (s *sched) loop() {
 			t.st, t.op, t.opPtr, t.opSite = stBlocked, opWGWait, r.ptr, r.site
 		case rqLock:
 			t.st, t.op, t.opPtr, t.opSite = stBlocked, opLock, r.ptr, r.site
+		case rqRWLock:
+			t.st, t.op, t.opPtr, t.opSite = stBlocked, opRWLock, r.ptr, r.site
+			s.rwOf(r.ptr).wwait++ // from now on new readers have to wait
+		case rqRWRLock:
+			t.st, t.op, t.opPtr, t.opSite = stBlocked, opRWRLock, r.ptr, r.site
 		case rqSleep:
 			t.st, t.op, t.opSite = stSleeping, opSleep, r.site
 			t.until = simNow + r.n
@@ -1000,6 +1046,14 @@ func (s *sched) dispatch(t *Task) {
 		}
 		*h = true
 		s.mix(int64(t.ID), 2)
+	case opRWLock:
+		w := s.rwOf(t.opPtr)
+		w.wwait--
+		w.writer = true
+		s.mix(int64(t.ID), 5)
+	case opRWRLock:
+		s.rwOf(t.opPtr).readers++
+		s.mix(int64(t.ID), 6)
 	default:
 		s.mix(int64(t.ID), 3, int64(t.op))
 	}
